@@ -10,7 +10,8 @@ import c17_sizes as DS
 import c17_readers as DR
 
 COQ_FILES = ("L5_Stores/Codec.v", "L5_Stores/CodecProofs.v", "Properties/C17.v")
-EXTRACTED = ("ConstCodec",)
+PROPERTY_FILES = ("C17", "C17g")
+EXTRACTED = ("ConstCodec", "GenCodec")
 ALLOWED_AXIOMS = ()
 
 PRELUDE = """From Coq Require Import List String.
